@@ -4,6 +4,7 @@ import QuaiVerif.Driver.State
 import QuaiVerif.Driver.Evm
 import QuaiVerif.Driver.Codec
 import QuaiVerif.Driver.Sign
+import QuaiVerif.Driver.Trie
 /- qvdriver: `qvdriver <area>` reads protocol lines on stdin, answers one line per line. -/
 open QuaiVerif
 
@@ -16,5 +17,6 @@ def main (args : List String) : IO UInt32 := do
   | ["evm"] => ioLoop Etx.step stdin stdout (); return 0
   | ["codec"] => ioLoop Proto.step stdin stdout (); return 0
   | ["sign"] => ioLoop Sign.step stdin stdout {}; return 0
+  | ["trie"] => ioLoop Trie.step stdin stdout {}; return 0
   | ["addr"] => ioLoop Addr.step stdin stdout {}; return 0
   | _ => IO.eprintln "usage: qvdriver <area>"; return 2
